@@ -22,10 +22,11 @@ class C02(Property):
     theorem_modules = ['RosuModel.Props.C02All', 'RosuModel.Props.C02CodecIeee', ('RosuModel.Props.IeeeFalse', 'Rosu.IeeeFalse'), 'RosuModel.Props.C02DecodedIeee',
                        'RosuModel.Props.C02FinalParts', 'RosuModel.Props.C02Final', 'RosuModel.Props.C02FinalDecoded', 'RosuModel.Props.C02FinalMania', 'RosuModel.Props.C02FinalToy',
                        'RosuModel.Props.C02FinalUnordered', ('RosuModel.Lemmas.RtTimelineDsv', 'Rosu.RtTiming'),
-                       'RosuModel.Props.C02FinalCurves', 'RosuModel.Props.C02FinalScroll', 'RosuModel.Props.C02FinalScrollToy', 'RosuModel.Props.C02FinalScrollExact']   # files whose top-level theorems are all audited
+                       'RosuModel.Props.C02FinalCurves', 'RosuModel.Props.C02FinalScroll', 'RosuModel.Props.C02FinalScrollToy', 'RosuModel.Props.C02FinalScrollExact', 'RosuModel.Props.C02IeeeTiming']   # files whose top-level theorems are all audited
     namespace = "Rosu.C02"
     design_ref = "5.2"
     required_theorems = [
+        "sv_reread_err_float", "sv_roundtrip_err_float", "scroll_roundtrip_err_float", "sv_roundtrip_not_exact_float", "svInverse_iff_float", "sv_redundancy_flips_float",
         "decoded_scroll_timeline", "decoded_scrollDrivesSv", "roundtrip_objects_decoded_scroll_partial", "unordered_scroll_counterexample", "mode_change_counterexample",
         "same_fields_same_curve", "finish_curves", "roundtrip_curves_partial", "roundtrip_curves_decoded_partial",
         "sort_chronological_id", "postProcessBreaks_idempotent", "postProcessBreaks_eq_zip", "finalize_reads_timeline_only", "decoded_finalized", "roundtrip_objects_rep_core",
@@ -174,6 +175,15 @@ class C02(Property):
             "finish_curves (every decoded map: the curves the finaliser computes on its one threaded buffer set are the curves on fresh buffers), natural_length_same_curve (NearLaw: a slider without requested length, written with its "
             "computed length, reads back to the same curve), roundtrip_curves_partial / roundtrip_curves_decoded_partial: the re-decoded sliders' computed curves equal the original's, all four modes, under PathStable (path mode = map mode - "
             "F15 otherwise - and stored lengths in normal form). Non-vacuity: toyScroll_timeline (a mania file given as bytes), toyMapF_roundtrip_curves",
+        "sv_roundtrip_err_float / scroll_roundtrip_err_float (the timing clause on IEEE DOUBLES: what replaces the oracle's '<= 4 ulp')":
+            "sixth session, Props/C02IeeeTiming.lean over Lemmas/FloatErrMul.lean. beatLenWritten sv = -100 / sv (the encoder), speedRead b = 100 / -b (the decoder), the decimal text in between exact "
+            "(beatLen_text_exact, from float_parse_print); difficultyPoint_roundtrip links them to the model by rfl. For every stored slider velocity in [0.1, 10]: the written beat length is negative and finite, and the value "
+            "read back - after the decoder's clamp - satisfies |sv' - sv| <= ((1+u)/(1-u) - 1) sv <= 2.0000001 * 2^-53 * sv (sv_roundtrip_err_float, sv_roundtrip_err_const_float; two roundings), stays inside the clamp "
+            "(sv_roundtrip_within_float), and two round trips stay within (1+bound)^2 - 1; the same for the scroll speed in [0.01, 10] (scroll_roundtrip_err_float). Exact equality is FALSE, kernel-evaluated: "
+            "sv_roundtrip_not_exact_float (2.75 comes back one ulp below), 1.31 one ulp above; svInverse_iff_float / svInverse_false_float: the hypothesis SvInverse of TimelineHyps is exactly 'no drift' and fails for 2.75. "
+            "NOT proved: that the drift stops after one round (sv_roundtrip_idempotent_float_statement; kernel-checked on ten values, no counterexample in 10^7 random values) and the timeline statement with 'equal' replaced by 'close' "
+            "(timing_rt_close_float_statement) - with a purely relative bound it is false for hand-built collections: sv_redundancy_flips_float (0.19 and its successor are apart by more than EPSILON before and less after the round trip: "
+            "the second point is dropped, 7 ulps), scroll_redundancy_flips_float (127 ulps)",
         "roundtrip": "NOT a theorem as a whole (only `def roundtrip_statement`, `def hitobjects_roundtrip_statement`, `def roundtrip_rep_statement`, `def roundtrip_objects_statement : Prop`). Step (a) - the map-level "
             "processing of the re-decoded objects against the original map's objects - is now proved for representable finalized maps (entry above). Still missing: sample defaults from the re-decoded "
             "sample points (outside the preserved view); (b) that a DECODED map satisfies RepMap — false in general: F17 (typed point "
